@@ -165,7 +165,10 @@ def _sum_outer(x):
 
 def _eigh(a, b, dim):
   try:
-    return scipy.sparse.linalg.eigsh(a, k=dim, M=b, which='LA')
+    # a fixed start vector: ARPACK otherwise draws one at random and two fits
+    # on the same data return components of opposite signs
+    v0 = np.random.RandomState(0).uniform(-1, 1, a.shape[0])
+    return scipy.sparse.linalg.eigsh(a, k=dim, M=b, which='LA', v0=v0)
   except np.linalg.LinAlgError:
     pass  # scipy already tried eigh for us
   except (ValueError, scipy.sparse.linalg.ArpackNoConvergence):
